@@ -153,7 +153,7 @@ func appRun(s *simkit.Sim, node int, name string, conn *gmtls.Conn, raw *simkit.
 			break
 		}
 		if err != nil {
-			if ne, ok := err.(interface{ Timeout() bool }); ok && ne.Timeout() && plan.Deadline > 0 && res.Timeouts < 1000000 {
+			if isTimeout(err) && plan.Deadline > 0 && res.Timeouts < 1000000 {
 				res.Timeouts++
 				continue
 			}
